@@ -36,19 +36,25 @@ Proof. vm_compute. repeat split; reflexivity. Qed.
 
 (* the bodies of the functions the model mirrors by hand are the ones it was written against *)
 Lemma source_shapes :
-  shape_poll_accept_recv = 741454059817761024 /\
-  shape_inner_poll_control = 610605719855264594 /\
-  shape_process_goaway = 849770796200219870 /\
-  shape_poll_grease_stream = 402698484532604429 /\
-  shape_into_stream = 604109462653454260 /\
-  shape_poll_next_varint = 722813221928172113 /\
+  shape_poll_accept_recv = 591983135190798518 /\
+  shape_inner_poll_control = 890975112773524947 /\
+  shape_process_goaway = 871731484758505634 /\
+  shape_poll_grease_stream = 635301977400214042 /\
+  shape_into_stream = 261516598973359362 /\
+  shape_poll_next_varint = 120984297333425183 /\
   shape_poll_type = 607312072019453852 /\
   shape_server_accept = 1127531358984613172 /\
   shape_server_shutdown = 832965435934073669 /\
-  shape_server_poll_accept_request = 156635046848499470 /\
+  shape_server_poll_accept_request = 17685302642143960 /\
   shape_server_poll_control = 1019207998921379069 /\
-  shape_server_poll_next_control = 786539864495094159 /\
-  shape_client_poll_close = 457050589089166871.
+  shape_server_poll_next_control = 426661483519124924 /\
+  shape_client_poll_close = 966646822472731881 /\
+  shape_client_wait_idle = 549684088248201512 /\
+  shape_server_poll_accept_request_stream = 818014197823978860 /\
+  shape_server_poll_requests_completion = 214212503412079944 /\
+  shape_server_create_resolver_internal = 928008039183429589 /\
+  shape_pushid_to_varint = 290316249488136314 /\
+  shape_varint_to_pushid = 1065242208624881100.
 Proof. vm_compute. repeat split; reflexivity. Qed.
 
 (* ---------- which parts of the connection state a function leaves alone ---------- *)
